@@ -69,6 +69,38 @@ func canonDocs(docs []*document.Document) []string {
 	return out
 }
 
+// Shared update maps: an application may keep one map (say, a package-level
+// "mark as seen" update) and pass it to Update from every goroutine. The
+// library may read it, never write it.
+const nSharedUpds = 2
+
+func sharedUpdGo(k int) map[string]interface{} {
+	if k%nSharedUpds == 0 {
+		return map[string]interface{}{"u": "shared0", "g": int(1)} // a Go int: normalisation has something to do
+	}
+	return map[string]interface{}{"u": "shared1", "w": float32(0.5)}
+}
+
+func sharedUpdSpec(k int) map[string]val.V {
+	if k%nSharedUpds == 0 {
+		return map[string]val.V{"u": val.Wrap("shared0"), "g": val.Wrap(int64(1))}
+	}
+	return map[string]val.V{"u": val.Wrap("shared1"), "w": val.Wrap(float64(0.5))}
+}
+
+func snapUpd(m map[string]interface{}) string {
+	ks := make([]string, 0, len(m))
+	for k := range m {
+		ks = append(ks, k)
+	}
+	sort.Strings(ks)
+	var sb strings.Builder
+	for _, k := range ks {
+		fmt.Fprintf(&sb, "%s=%T(%v);", k, m[k], m[k])
+	}
+	return sb.String()
+}
+
 // sharedBases are query objects built once per run and used by every client
 // (through the copy-on-write builders): queries must be immutable values.
 func sharedBaseSpec(k int) *model.Query {
@@ -178,6 +210,12 @@ func genConc(job *Job, prop string, seed, idx uint64) *RunOutcome {
 				upd := map[string]val.V{"u": val.Wrap(u("u"))}
 				if r.Chance(0.55) {
 					upd["g"] = val.Wrap(int64(r.Intn(3))) // rewrites the indexed / filtered field: documents move between the ranges other clients scan
+				}
+				if r.Chance(0.3) {
+					// one update map object handed to Update by several clients at once
+					k := r.Intn(nSharedUpds)
+					ops = append(ops, Op{K: "Update", Q: qOf(), Upd: sharedUpdSpec(k), Note: fmt.Sprintf("sharedupd:%d", k)})
+					continue
 				}
 				ops = append(ops, Op{K: "Update", Q: qOf(), Upd: upd})
 			case 3:
@@ -460,17 +498,18 @@ type concResult struct {
 }
 
 type concRun struct {
-	rf       *RunFile
-	db       *clover.DB
-	ctl      *wrap.Ctl
-	clients  []*concClient
-	cur      *concClient
-	seq      int64
-	parked   handoff // signalled by the running client when it parks or finishes
-	single   bool    // single-writer store: Begin(true) blocks while a write transaction is open
-	decided  []int
-	panicMsg string
-	shared   []*query.Query
+	rf        *RunFile
+	db        *clover.DB
+	ctl       *wrap.Ctl
+	clients   []*concClient
+	cur       *concClient
+	seq       int64
+	parked    handoff // signalled by the running client when it parks or finishes
+	single    bool    // single-writer store: Begin(true) blocks while a write transaction is open
+	decided   []int
+	panicMsg  string
+	shared    []*query.Query
+	sharedUpd []map[string]interface{}
 	// holdAfterTx: per-run policy, see concClient.holdUntil
 	holdAfterTx bool
 }
@@ -556,7 +595,13 @@ func (cr *concRun) execOp(op *Op) (out concOut) {
 	case "DeleteById":
 		out.Err = concErrClass(cr.db.DeleteById(op.Coll, op.ID))
 	case "Update":
-		out.Err = concErrClass(cr.db.Update(QueryToClover(op.Q), op.updMap()))
+		um := op.updMap()
+		if strings.HasPrefix(op.Note, "sharedupd:") {
+			var k int
+			fmt.Sscanf(op.Note, "sharedupd:%d", &k)
+			um = cr.sharedUpd[k%nSharedUpds]
+		}
+		out.Err = concErrClass(cr.db.Update(QueryToClover(op.Q), um))
 	case "Delete":
 		out.Err = concErrClass(cr.db.Delete(QueryToClover(op.Q)))
 	case "CreateIndex":
@@ -669,6 +714,9 @@ func runConc(rf *RunFile) *RunOutcome {
 	cr := &concRun{rf: rf, db: e.DB, ctl: e.Ctl}
 	for k := 0; k < nSharedBases; k++ {
 		cr.shared = append(cr.shared, QueryToClover(sharedBaseSpec(k)))
+	}
+	for k := 0; k < nSharedUpds; k++ {
+		cr.sharedUpd = append(cr.sharedUpd, sharedUpdGo(k))
 	}
 	sharedSnap := make([]qSnapshot, len(cr.shared))
 	for k := range cr.shared {
@@ -814,6 +862,12 @@ func runConc(rf *RunFile) *RunOutcome {
 				rep = rep[:3000]
 			}
 			out.V = &Violation{Props: []string{"C07"}, Rule: "C07/data-race", Msg: fmt.Sprintf("the race detector reported %d data race(s) involving clover code, first one:\n%s", len(races), rep), Features: feats}
+			return out
+		}
+	}
+	for k := range cr.sharedUpd {
+		if got, want := snapUpd(cr.sharedUpd[k]), snapUpd(sharedUpdGo(k)); got != want {
+			out.V = &Violation{Props: []string{"C07"}, Rule: "C07/shared-argument-written", Msg: fmt.Sprintf("an update map handed to Update by several clients was written to by the library (a data race on the caller's memory): before %s, after %s", want, got), Features: feats}
 			return out
 		}
 	}
